@@ -16,6 +16,8 @@ Section RProofs.
   Variable Rh dRh : R -> R.
   Variable rate : option ((R -> R) * (R -> R)).
   Variable dt sy tol : R.
+  Variable start : R -> R -> R.
+  Hypothesis start_nonneg : forall p0 f, 0 <= start p0 f.
 
   Notation phiR := (phi Rops).
   Notation dphiR := (dphi Rops).
@@ -27,8 +29,8 @@ Section RProofs.
   Notation activeR := (active Rops Rh sy).
   Notation ftrialR := (ftrial Rops Rh sy).
   Notation loopR := (loop Rops Rh dRh rate dt sy tol).
-  Notation solveR := (solve Rops Rh dRh rate dt sy tol).
-  Notation initR := (init Rops Rh sy).
+  Notation solveR := (solve Rops Rh dRh rate dt sy tol start).
+  Notation initR := (init Rops Rh sy start).
   Notation next_vR := (next_v Rops).
   Notation small_vR := (small_v Rops sy tol).
   Notation exit_smallR := (exit_small Rops Rh rate dt sy tol).
@@ -81,7 +83,9 @@ Section RProofs.
   Lemma init_good : forall pts, Forall good (initR pts).
   Proof.
     intros. unfold init. rewrite Forall_map. apply Forall_forall. intros pt _.
-    unfold good, st_act, st_pt, st_th; cbn [fst snd]. repeat split; auto; change (o0 Rops) with 0; lra.
+    unfold good, st_act, st_pt, st_th, theta0; cbn [fst snd]. repeat split; auto.
+    - destruct (activeR pt); [apply start_nonneg | change (o0 Rops) with 0; lra].
+    - intro Hf; rewrite Hf; reflexivity.
   Qed.
 
   Lemma good_step : forall q rd, good q -> good (st_pt q, st_act q, next_vR (st_act q) (st_th q) rd).
@@ -428,19 +432,21 @@ End RProofs.
 Section RateIndependent.
   Variable Rh dRh : R -> R.
   Variable dt sy tol : R.
+  Variable start : R -> R -> R.
+  Hypothesis start_nonneg : forall p0 f, 0 <= start p0 f.
 
   (* C19 converged_on_surface : if the loop leaves through its break test (every active point
      has |r| < tol*sigma_y) then the returned stress satisfies f <= tol*sigma_y at every point:
      active points are within tol of the surface, idle points are elastic (f = f_trial <= 0). *)
   Theorem converged_on_surface : forall maxIter pts, 0 <= tol * sy ->
-      let st := solve Rops Rh dRh None dt sy tol maxIter pts in
+      let st := solve Rops Rh dRh None dt sy tol start maxIter pts in
       exit_small Rops Rh None dt sy tol st = true ->
       Forall (fun q => f_new Rh sy (st_pt q) (st_th q) <= tol * sy /\
                        (st_act q = true -> Rabs (f_new Rh sy (st_pt q) (st_th q)) < tol * sy)) st.
   Proof.
     intros n pts Htol st Hex.
     pose proof (exit_small_forall Rh None dt sy tol st Hex) as Ha.
-    pose proof (idle_points_return_trial Rh dRh None dt sy tol n pts) as Hi.
+    pose proof (idle_points_return_trial Rh dRh None dt sy tol start start_nonneg n pts) as Hi.
     fold st in Hi. rewrite Forall_forall in *. intros q Hin.
     specialize (Ha q Hin). specialize (Hi q Hin).
     assert (Hr : forall pt th, resid Rops Rh None dt sy pt th = f_new Rh sy pt th).
